@@ -44,13 +44,13 @@ import (
 	"strings"
 )
 
-const version = "panicsites-v4"
+const version = "panicsites-v5"
 
 // packages (directories) whose functions take part in the call graph
 var scopeDirs = []string{
 	"types",
 	"x/rvesting/module", "x/rvesting/keeper", "x/rvesting/types",
-	"x/xibc", "x/xibc/types", "x/xibc/exported",
+	"x/xibc", "x/xibc/types", "x/xibc/exported", "x/xibc/module", "x/aggregate/module",
 	"x/xibc/core/client", "x/xibc/core/client/keeper", "x/xibc/core/client/types",
 	"x/xibc/core/host", "x/xibc/core/commitment/types",
 	"x/xibc/core/packet", "x/xibc/core/packet/keeper", "x/xibc/core/packet/types",
@@ -63,6 +63,11 @@ var scopeDirs = []string{
 // roots: directory, receiver type ("" for functions), name
 var roots = [][3]string{
 	{"x/rvesting/module", "", "BeginBlocker"},
+	// the ABCI hooks of the three modules of the tree that have any (today all but rvesting's BeginBlock are empty:
+	// code added to one of them is new code outside recovery and shows up in the inventory)
+	{"x/rvesting/module", "AppModule", "BeginBlock"}, {"x/rvesting/module", "AppModule", "EndBlock"},
+	{"x/xibc/module", "AppModule", "BeginBlock"}, {"x/xibc/module", "AppModule", "EndBlock"},
+	{"x/aggregate/module", "AppModule", "BeginBlock"}, {"x/aggregate/module", "AppModule", "EndBlock"},
 	{"x/xibc/core/client", "", "NewClientProposalHandler"},
 	{"x/aggregate", "", "NewAggregateProposalHandler"},
 	{"x/xibc", "", "InitGenesis"},
